@@ -1,5 +1,5 @@
 From Flocq Require Import Core BinarySingleNaN.
-From Tetl Require Import Lib.Base C12.Model C12.Spec C12.FModel.
+From Tetl Require Import Lib.Base C12.Model C12.Spec C12.FModel C12.UModel C12.USpec.
 Require Extraction.
 Require Import ExtrOcamlBasic.
 Extraction Language OCaml.
@@ -15,4 +15,11 @@ Extraction "C12_model.ml" wire_anchor
   d_of_Z enc64 dec64 fcast_m fconv_m fcast_spec fspec_ok
   d_int_of fsrc_ok dd_cast_m di_cast_m di_floor_m di_ceil_m di_round_m dd_plus_m dd_minus_m dd_div_m dd_lt_m dd_eq_m
   id_plus_m id_minus_m id_lt_m id_eq_m di_minus_m di_lt_m is_mul_m is_div_m ds_mul_m ds_div_m
+  rty_ok rmin rmax cvt common_rep cr3 ucommon_m uconv_m uconvertible_m ucast_m uadd_m usub_m udiv_m umod_m
+  ueq_m une_m ult_m ule_m ugt_m uge_m uneg_m uuplus_m uinc_m udec_m uadd_assign_m usub_assign_m umul_assign_m
+  udiv_assign_m umod_assign_m usmul_m usdiv_m usmod_m ufloor_m uceil_m uround_m uabs_m
+  utp_plus_m utp_plus_r_m utp_minus_m utp_diff_m utp_add_assign_m utp_sub_assign_m utp_inc_m utp_dec_m
+  utp_eq_m utp_ne_m utp_lt_m utp_le_m utp_gt_m utp_ge_m
+  urep_ok crep_spec ufits uboth_ok uplus_ok uminus_ok udiv_ok uscalar_ok ucast_ok uwrap overflow_is_ub
+  ufloor_ok uceil_ok uround_ok uabs_ok
   fits rep_ok period_ok cast_ok common_ok both_ok plus_ok minus_ok div_ok floor_ok ceil_ok round_ok abs_ok.
